@@ -61,6 +61,8 @@ pub enum Reply {
     Hold,
     /// answer only after being released, and then with a well formed answer signed by another key
     HoldThenWrongKey,
+    /// a valid answer, that many milliseconds late
+    Slow(u64),
     /// close the connection without answering
     Hangup,
     /// 200 with exactly these bytes
@@ -244,6 +246,9 @@ fn handle(mut stream: TcpStream, state: Arc<Mutex<TowerState>>, keys: Keys) {
             s.answered_at = Some(Instant::now());
         }
     };
+    if let Reply::Slow(ms) = reply {
+        std::thread::sleep(Duration::from_millis(ms));
+    }
     if reply == Reply::Hold || reply == Reply::HoldThenWrongKey {
         let start = Instant::now();
         while !state.lock().unwrap().release && start.elapsed() < Duration::from_secs(30) {
@@ -257,7 +262,7 @@ fn handle(mut stream: TcpStream, state: Arc<Mutex<TowerState>>, keys: Keys) {
             match uid {
                 Some(uid) => {
                     let mut st = state.lock().unwrap();
-                    if !matches!(reply, Reply::Accept | Reply::Hold | Reply::WrongKey | Reply::BadSignature(_) | Reply::Mutated(..) | Reply::Dropped(_)) {
+                    if !matches!(reply, Reply::Accept | Reply::Slow(_) | Reply::Hold | Reply::WrongKey | Reply::BadSignature(_) | Reply::Mutated(..) | Reply::Dropped(_)) {
                         // failed registrations do not advance the subscription
                     } else if !st.stale_registration {
                         st.registrations += 1;
@@ -284,7 +289,7 @@ fn handle(mut stream: TcpStream, state: Arc<Mutex<TowerState>>, keys: Keys) {
         _ => json!({"error": "unknown endpoint", "error_code": 6}),
     };
     let bytes: Option<Vec<u8>> = match &reply {
-        Reply::Accept | Reply::Hold | Reply::HoldThenWrongKey | Reply::WrongKey | Reply::BadSignature(_) => Some(http_reply(200, valid.to_string().as_bytes(), "application/json")),
+        Reply::Accept | Reply::Slow(_) | Reply::Hold | Reply::HoldThenWrongKey | Reply::WrongKey | Reply::BadSignature(_) => Some(http_reply(200, valid.to_string().as_bytes(), "application/json")),
         Reply::Mutated(field, v) => {
             let mut x = valid.clone();
             x[field] = v.clone();
